@@ -37,6 +37,68 @@ def is_none_lit(oo):
     return oo == {("def", "core::option::Option::None::{ctor}")} or oo == {("def", "core::option::Option::None")}
 
 
+def _sources(t_):
+    """top-level sources a term is built from: (param, field) for `param.field…`, (param,) for a parameter used whole"""
+    out = set()
+
+    def walk(x):
+        if not isinstance(x, tuple):
+            return
+        if x[:1] == ("field",) and isinstance(x[1], tuple) and x[1][:1] == ("param",):
+            out.add((x[1][1], x[2]))
+            return
+        if x[:1] == ("param",):
+            out.add((x[1],))
+            return
+        for y in (x[1:] if isinstance(x[0], str) else x):
+            if isinstance(y, tuple):
+                walk(y)
+    walk(t_)
+    return out
+
+
+def flow_by_table(F, r1, fn, want, nones, src, src_fields):
+    """Field flow of a claims constructor decided on its decision table (helpers inlined): on every accepting path each claims member is
+    built from exactly its own source (or is None because that source is None), the duplicated members are None, there is no other
+    member, and every field of the source structure is carried — whichever way the function takes the structure apart."""
+    tab = SR.Table(F, fn, rule=r1, max_paths=6000)
+    oks = tab.ok()
+    used = set()
+    for q in oks:
+        out = q.ret.fields[0] if isinstance(q.ret, sym.V) and q.ret.fields else q.ret
+        if not r1.require(isinstance(out, sym.St), (fn, "literal"), "%s does not return a claims structure the evaluator can see" % fn.rsplit("::", 2)[-2]):
+            continue
+        flat = {}
+        for k_, v_ in out.f.items():
+            if isinstance(v_, sym.St) and k_ in ("vc", "vp"):
+                for k2_, v2_ in v_.f.items():
+                    flat[k_ + "." + k2_] = v2_
+            else:
+                flat[k_] = v_
+        for k_, w_ in want.items():
+            tv = sym.term(flat[k_]) if k_ in flat else None
+            ss = _sources(tv) if tv is not None else set()
+            w2 = tuple(w_[:2]) if len(w_) > 1 else tuple(w_)
+            okf = ss == {w2}
+            if not okf and tv == ("ctor", "None"):
+                # absent because the source is: the path decided that the source (or the part of it that is carried) is None
+                base_ = ("field", ("param", w_[0]), w_[1]) if len(w_) > 1 else ("param", w_[0])
+                okf = any(v__ == "None" and isinstance(t__, tuple) and (t__ == base_ or any(y_ == base_ for y_ in sym.subterms(t__))) for t__, v__ in q.variant.items())
+            r1.require(okf, (fn, "field", k_), "claims field %s is built from %s, expected %s" % (k_, sorted(".".join(x_) for x_ in ss) or sym.fmt(tv) if tv is not None else None, ".".join(w_)))
+            if okf and len(w_) > 1 and w_[0] == src:
+                used.add(w_[1])
+        for k_ in nones:
+            r1.require(k_ in flat and sym.term(flat[k_]) == ("ctor", "None"), (fn, "carried-once", k_), "%s must be None in the produced claims (the value is carried once, in the registered claim): %s" % (k_, sym.fmt(sym.term(flat[k_])) if k_ in flat else None))
+        r1.require(set(flat) == set(want) | set(nones), (fn, "literal-fields"), "unexpected/missing members in the claims: %s" % sorted(set(flat) ^ (set(want) | set(nones))))
+    for k_, w_ in want.items():
+        r1.site("%s: claims.%s ← %s" % (fn.rsplit("::", 2)[-2], k_, ".".join(w_)))
+    for k_ in nones:
+        r1.site("%s: claims.%s = None" % (fn.rsplit("::", 2)[-2], k_))
+    if oks:
+        r1.require(used == set(src_fields), (fn, "all-fields-used"), "%s fields not carried into the claims: %s" % (src, sorted(set(src_fields) - used)))
+    r1.require(bool(oks) or not tab.paths, (fn, "literal"), "%s has no accepting path" % fn)
+
+
 def run(F, R, tier):
     R.undecided += [
         "JSON-level equality of arbitrary `properties`/custom maps (serde `flatten` collisions between custom claims and registered names)",
@@ -46,44 +108,21 @@ def run(F, R, tier):
     pres_fields = [f["name"] for f in (F.adt_fields(PRES) or [])]
 
     # ------------------------------------------------------------------ R1 forward field flow
-    r1 = R.rule("C07-R1", "T5", "CredentialJwtClaims::new / PresentationJwtClaims::new: exhaustive destructuring, every field flows into the claims exactly once, duplicated vc/vp members are None")
+    r1 = R.rule("C07-R1", "T8", "CredentialJwtClaims::new / PresentationJwtClaims::new, on their decision tables (helpers inlined): every claims member is built from exactly its own source field, every field of the credential / presentation is carried, duplicated vc/vp members are None")
     fn = CJ + "::CredentialJwtClaims::new"
     h = F.hir(fn)
     if r1.anchor(h, fn) and r1.require(bool(cred_fields), (CRED, "fields"), "Credential fields not found"):
-        env = H.Env(h)
-        lets = [n for n in H.walk(H.root(h)) if n.get("k") == "let" and n["pat"].get("k") == "struct" and n["pat"].get("ty") == CRED]
-        if r1.require(len(lets) == 1, (fn, "destructure"), "the exhaustive `let Credential {..} = credential` was not found"):
-            p = lets[0]["pat"]
-            r1.require(not p["rest"], (fn, "destructure-rest"), "the Credential pattern uses `..`: a new field could be dropped silently")
-            r1.require({f["name"] for f in p["fields"]} == set(cred_fields), (fn, "destructure-fields"), "the Credential pattern does not name every field")
-            r1.site("let Credential{%d fields, no `..`} = credential" % len(p["fields"]), lets[0]["sp"])
-        lits = [s for s in H.struct_lits(h) if s.get("ty") == CJ + "::CredentialJwtClaims"]
-        if r1.require(len(lits) == 1, (fn, "literal"), "CredentialJwtClaims literal not found"):
-            fo = field_origins(lits[0], env)
-            want = {
-                "exp": ("credential", "expiration_date"), "iss": ("credential", "issuer"), "issuance_date": ("credential", "issuance_date"),
-                "jti": ("credential", "id"), "sub": ("credential", "credential_subject", "One", "0", "id"),
-                "vc.context": ("credential", "context"), "vc.types": ("credential", "types"),
-                "vc.credential_subject": ("credential", "credential_subject", "One", "0"),
-                "vc.credential_schema": ("credential", "credential_schema"), "vc.credential_status": ("credential", "credential_status"),
-                "vc.refresh_service": ("credential", "refresh_service"), "vc.terms_of_use": ("credential", "terms_of_use"),
-                "vc.evidence": ("credential", "evidence"), "vc.non_transferable": ("credential", "non_transferable"),
-                "vc.properties": ("credential", "properties"), "vc.proof": ("credential", "proof"), "custom": ("custom",),
-            }
-            nones = ["vc.id", "vc.issuance_date", "vc.expiration_date", "vc.issuer"]
-            used = set()
-            for k, w in want.items():
-                oo = fo.get(k)
-                ok = oo is not None and oo == {("param",) + w}
-                r1.site("claims.%s ← %s" % (k, sorted(map(str, oo or []))))
-                r1.require(ok, (fn, "field", k), "claims field %s derives from %s, expected credential.%s" % (k, sorted(map(str, oo or [])), ".".join(w[1:])))
-                if len(w) > 1:
-                    used.add(w[1])
-            for k in nones:
-                r1.require(is_none_lit(fo.get(k, set())), (fn, "carried-once", k), "%s must be None in the produced claims (the value is carried once, in the registered claim): %s" % (k, sorted(map(str, fo.get(k, [])))))
-                r1.site("claims.%s = None" % k)
-            r1.require(set(fo) == set(want) | set(nones), (fn, "literal-fields"), "unexpected/missing fields in the claims literal: %s" % sorted(set(fo) ^ (set(want) | set(nones))))
-            r1.require(used == set(cred_fields), (fn, "all-fields-used"), "credential fields not carried into the claims: %s" % sorted(set(cred_fields) - used))
+        want = {
+            "exp": ("credential", "expiration_date"), "iss": ("credential", "issuer"), "issuance_date": ("credential", "issuance_date"),
+            "jti": ("credential", "id"), "sub": ("credential", "credential_subject", "One", "0", "id"),
+            "vc.context": ("credential", "context"), "vc.types": ("credential", "types"),
+            "vc.credential_subject": ("credential", "credential_subject", "One", "0"),
+            "vc.credential_schema": ("credential", "credential_schema"), "vc.credential_status": ("credential", "credential_status"),
+            "vc.refresh_service": ("credential", "refresh_service"), "vc.terms_of_use": ("credential", "terms_of_use"),
+            "vc.evidence": ("credential", "evidence"), "vc.non_transferable": ("credential", "non_transferable"),
+            "vc.properties": ("credential", "properties"), "vc.proof": ("credential", "proof"), "custom": ("custom",),
+        }
+        flow_by_table(F, r1, fn, want, ["vc.id", "vc.issuance_date", "vc.expiration_date", "vc.issuer"], "credential", cred_fields)
     # IssuanceDateClaims::new: nbf = Some(to_unix), iat = None
     fn2 = CJ + "::IssuanceDateClaims::new"
     h2 = F.hir(fn2)
@@ -97,31 +136,13 @@ def run(F, R, tier):
     fn = PJ + "::PresentationJwtClaims::new"
     h = F.hir(fn)
     if r1.anchor(h, fn) and r1.require(bool(pres_fields), (PRES, "fields"), "Presentation fields not found"):
-        env = H.Env(h)
-        lets = [n for n in H.walk(H.root(h)) if n.get("k") == "let" and n["pat"].get("k") == "struct" and n["pat"].get("ty") == PRES]
-        if r1.require(len(lets) == 1, (fn, "destructure"), "the exhaustive `let Presentation {..} = presentation` was not found"):
-            p = lets[0]["pat"]
-            r1.require(not p["rest"] and {f["name"] for f in p["fields"]} == set(pres_fields), (fn, "destructure-fields"), "the Presentation pattern is not exhaustive")
-            r1.site("let Presentation{%d fields, no `..`} = presentation" % len(p["fields"]), lets[0]["sp"])
-        lits = [s for s in H.struct_lits(h) if s.get("ty") == PJ + "::PresentationJwtClaims"]
-        if r1.require(len(lits) == 1, (fn, "literal"), "PresentationJwtClaims literal not found"):
-            fo = field_origins(lits[0], env)
-            want = {
-                "iss": ("presentation", "holder"), "jti": ("presentation", "id"), "vp.context": ("presentation", "context"), "vp.types": ("presentation", "types"),
-                "vp.verifiable_credential": ("presentation", "verifiable_credential"), "vp.refresh_service": ("presentation", "refresh_service"),
-                "vp.terms_of_use": ("presentation", "terms_of_use"), "vp.properties": ("presentation", "properties"), "vp.proof": ("presentation", "proof"),
-                "exp": ("options", "expiration_date"), "issuance_date": ("options", "issuance_date"), "aud": ("options", "audience"), "custom": ("options", "custom_claims"),
-            }
-            used = set()
-            for k, w in want.items():
-                oo = fo.get(k)
-                r1.site("claims.%s ← %s" % (k, sorted(map(str, oo or []))))
-                r1.require(oo == {("param",) + w}, (fn, "field", k), "claims field %s derives from %s, expected %s" % (k, sorted(map(str, oo or [])), ".".join(w)))
-                if w[0] == "presentation":
-                    used.add(w[1])
-            for k in ("vp.id", "vp.holder"):
-                r1.require(is_none_lit(fo.get(k, set())), (fn, "carried-once", k), "%s must be None in the produced claims" % k)
-            r1.require(used == set(pres_fields), (fn, "all-fields-used"), "presentation fields not carried into the claims: %s" % sorted(set(pres_fields) - used))
+        want = {
+            "iss": ("presentation", "holder"), "jti": ("presentation", "id"), "vp.context": ("presentation", "context"), "vp.types": ("presentation", "types"),
+            "vp.verifiable_credential": ("presentation", "verifiable_credential"), "vp.refresh_service": ("presentation", "refresh_service"),
+            "vp.terms_of_use": ("presentation", "terms_of_use"), "vp.properties": ("presentation", "properties"), "vp.proof": ("presentation", "proof"),
+            "exp": ("options", "expiration_date"), "issuance_date": ("options", "issuance_date"), "aud": ("options", "audience"), "custom": ("options", "custom_claims"),
+        }
+        flow_by_table(F, r1, fn, want, ["vp.id", "vp.holder"], "presentation", pres_fields)
     # the option-sourced claims of a presentation (exp, nbf/iat, aud): present in the claims exactly when the option is — an absent option
     # must not become a claim (a defaulted `nbf = now` comes back as an issuance date the presentation never had), a present one carries
     # the option's value
@@ -239,7 +260,8 @@ def run(F, R, tier):
         n_ok = 0
         for q in tab.ok():
             cc = q.calls(r"check_consistency$")
-            r2.require(bool(cc) and q.succeeded(cc[0]) is True and SR.pure(cc[0].args[0], SR.SELF), (fn, "consistency-first"), "%s can succeed without check_consistency(self) ✓" % label)
+            if F.hir(claims_ty + "::check_consistency") is not None:        # (written into the conversion itself otherwise: C07-R3 decides it there)
+                r2.require(bool(cc) and q.succeeded(cc[0]) is True and SR.pure(cc[0].args[0], SR.SELF), (fn, "consistency-first"), "%s can succeed without check_consistency(self) ✓" % label)
             out = q.ret.fields[0] if isinstance(q.ret, sym.V) and q.ret.fields else None
             if not r2.require(isinstance(out, sym.St), (fn, "literal"), "%s does not return a value the evaluator can see field by field" % label):
                 continue
@@ -298,12 +320,20 @@ def run(F, R, tier):
         (PJ + "::PresentationJwtClaims", "try_into_presentation", "vp", {"id": ("jti", True), "holder": ("iss", False)}, pres_discard, "InconsistentPresentationJwtClaims"),
     ]
     for ty, conv, inner, pairs, discard, errv in specs:
-        L.require_tried_before_success(r3, F, ty + "::" + conv, [("check_consistency", ty + "::check_consistency")])
-        L.mir_success_dominates(r3, F, ty + "::" + conv, ty + "::check_consistency", "check_consistency")
-        fn = ty + "::check_consistency"
+        inlined = F.hir(ty + "::check_consistency") is None and F.hir(ty + "::" + conv) is not None
+        if not inlined:
+            L.require_tried_before_success(r3, F, ty + "::" + conv, [("check_consistency", ty + "::check_consistency")])
+            L.mir_success_dominates(r3, F, ty + "::" + conv, ty + "::check_consistency", "check_consistency")
+            fn = ty + "::check_consistency"
+        else:
+            # no separate helper: the comparisons are written into the conversion — the same clauses are decided on the accepting paths of
+            # the conversion itself (every one of them has then passed the comparisons)
+            fn = ty + "::" + conv
+            r3.site("%s: consistency checks are part of the conversion; decided on its own accepting paths" % L.short(fn))
+            r3.site("%s: (no separate check_consistency to dominate)" % L.short(fn))
         if not r3.anchor(F.hir(fn), fn):
             continue
-        tab = SR.Table(F, fn, opaque=r"to_issuance_date$|Timestamp::to_unix$", rule=r3, max_paths=6000)
+        tab = SR.Table(F, fn, opaque=r"to_issuance_date$|Timestamp::to_unix$" + (r"|Timestamp::from_unix$" if inlined else ""), rule=r3, max_paths=6000)
         INNER = SR.fld(inner)
 
         def mterm(member):
@@ -315,6 +345,8 @@ def run(F, R, tier):
         read = set()
         for q in tab.paths:
             for t_ in q.variant:
+                if inlined and not any(SR.derives(t_, mterm(m_)) or t_ == mterm(m_) for m_ in pairs):
+                    continue      # (the conversion also looks at the members it carries over)
                 if SR.derives(t_, INNER) and t_[:1] == ("field",):
                     x, segs = t_, []
                     while x != INNER and x[:1] == ("field",):
@@ -335,7 +367,7 @@ def run(F, R, tier):
             dd = {d[len(inner) + 1:] for d in discard if d.startswith(inner + ".")}
             cmp_ = {p_.split(".")[0] for p_ in pairs} - {"credential_subject"}
             r3.require(dd == cmp_, (fn, "siblings"), "members discarded by %s (%s) differ from the members check_consistency compares (%s): a discarded member is silently resolved" % (conv, sorted(dd), sorted(cmp_)))
-        for q in tab.err():
+        for q in ([] if inlined else tab.err()):
             en = SR.err_name(q.ret)
             r3.require(en == errv or "to_issuance_date" in sym.fmt(sym.term(q.ret)), (fn, "guard-outcome"), "a consistency guard returns %s" % en)
         # decision: on every accepting path a present member equals its registered claim (which must then be present too)
